@@ -1,8 +1,10 @@
 import Np.Proofs.Den
 import Np.Proofs.Index
 import Np.Model.Print
-/-! C16 — str/repr denote exactly the polynomial: token-level theorems (`_partial`: that the rendered *text* parses
-back is established by the correspondence run with an independent reader) -/
+import Np.Proofs.PrintText
+/-! C16 — str/repr denote exactly the polynomial: token-level theorems for every coefficient type, and the text-level round trip
+for integer coefficients under the default display strings (other coefficient texts: `_partial`, established by the
+correspondence run with an independent reader) -/
 namespace Np.Props.C16
 open MvPolynomial Np.Print
 variable {S : Type} [CommSemiring S] [BEq S] [LawfulBEq S]
@@ -66,6 +68,37 @@ theorem printed_order (graded reverse : Bool) (ts : List (Expo × S)) :
     (Index.glexsort graded reverse (ts.map (·.1))).Pairwise
       (fun i j => Index.glexLe graded reverse ((ts.map (·.1)).getD i []) ((ts.map (·.1)).getD j []) = true) :=
   Index.glexsort_sorted graded reverse _
+
+/-! ### text level, integer coefficients, default display strings (Np/Model/PrintText.lean, Np/Proofs/PrintText.lean) -/
+section text
+open Np.PrintText
+
+/-- **the printed text reads back as exactly the polynomial**: for integer coefficients, names `q<i>`, `*` and `**`,
+and every setting of the three display-order flags, an honest reader of the text (`readStr`: split at signs, then at
+`*`, regroup `**`, look the names up) applied to the text `renderStr` prints for the terms `ts` returns the non-zero
+terms in printing order — and those denote the same polynomial as `ts` -/
+theorem text_roundtrip (names : List Nat) (hn : names.Nodup) (g r i : Bool) (ts : List (Expo × Int))
+    (hl : ∀ t ∈ ts, t.1.length = names.length) (hne : printOrder g r i ts ≠ []) :
+    ∃ l, readStr names (renderStr names (printTokens g r i ts)) = some l ∧
+      denT names (l.map fun t => (t.2, t.1)) = denT names ts := by
+  refine ⟨_, readStr_print names hn g r i ts hl hne, ?_⟩
+  rw [List.map_map]
+  have : ((fun t : Int × Expo => (t.2, t.1)) ∘ fun t : Expo × Int => (t.2, t.1)) = id := by
+    funext t; rfl
+  rw [this, List.map_id]
+  exact printed_terms_den names g r i ts
+
+/-- the zero polynomial prints `0`, which reads back as the single constant term 0 -/
+theorem text_roundtrip_zero (names : List Nat) :
+    readStr names (renderStr names []) = some [((0 : Int), names.map fun _ => 0)] :=
+  readStr_renderStr_nil names
+
+/-- the reader is exact on any well-formed token list (not only the printer's) -/
+theorem text_reads_tokens (names : List Nat) (hn : names.Nodup) (toks : List (Tok Int)) (hne : toks ≠ [])
+    (h : ∀ t ∈ toks, TokWF names t) :
+    readStr names (renderStr names toks) = some (toks.map fun t => (t.coef, t.expo)) :=
+  readStr_renderStr names hn toks hne h
+end text
 
 /-- non-vacuity: 2*q1 - q0 - 3 under the default display flags (graded, not reverse, inverse) -/
 example : (printTokens true false true [([0, 0], (-3 : Int)), ([1, 0], -1), ([0, 1], 2)]).map
